@@ -455,7 +455,9 @@ F_C12_step(cfg, pre, post) ==
              \* a fresh customer starts at a scheduled node only when no interrupted customer is left waiting there
              LET s == post.steps[a]
                  wasIntr == (IsLive(pre, s.i) /\ CuOf(pre, s.i).intr)
-                            \/ \E b \in 1..(a-1) : post.steps[b].k = "interrupt" /\ post.steps[b].i = s.i
+                            \/ (\E b \in 1..(a-1) : post.steps[b].k = "interrupt" /\ post.steps[b].i = s.i)
+                            \* a higher-priority customer that pre-empts takes a busy server: not a restart after a shift
+                            \/ (\E b \in 1..(a-1) : post.steps[b].k = "preempt" /\ post.steps[b].j = s.i)
              IN s.n \in 1..NN(post) /\ cfg.nodes[s.n].kind = "sched" /\ cfg.nodes[s.n].sched.pre \in {1, 2, 3} /\ ~wasIntr
                 => \* interrupted customers still waiting after the event would have had to go first
                    post.nodes[s.n].intr = <<>>)
@@ -1112,6 +1114,10 @@ Triggers(cfg, pre, post) ==
     \cup (IF \E a \in IdxOf(post, "route") : post.steps[a].f = 2 /\ post.steps[a].d \in 1..NN(pre)
                  /\ pre.nodes[post.steps[a].d].count >= pre.nodes[post.steps[a].d].cap
           THEN {"F22"} ELSE {})
+    \cup (IF \E a \in IdxOf(post, "preempt") : post.steps[a].n \in 1..NN(pre) /\
+                 \E b \in DOMAIN pre.nodes[post.steps[a].n].srv :
+                     pre.nodes[post.steps[a].n].srv[b].cust = post.steps[a].i /\ pre.nodes[post.steps[a].n].srv[b].off
+          THEN {"F23"} ELSE {})
     \cup (IF post.ev.kind = "arrival" /\ post.now = 0 /\ post.ev.node \in DOMAIN cfg.nodes
               /\ cfg.nodes[post.ev.node].kind \in {"slot", "ps"}
           THEN {"F14"} ELSE {})
